@@ -204,6 +204,42 @@ impl Property for C11 {
         };
         st.distinct.insert(sc.fingerprint());
         st.bump(&format!("fault.fired.{}", kind.tag()));
+        // the error the call returns is of the kind of the fault the simulator injected: a memory
+        // limit never surfaces as a content-handler error (or the other way round), whichever code
+        // path the failing charge sits on -- each flag governs its own error kind
+        {
+            fn walk(v: &serde_json::Value, f: &mut dyn FnMut(&str, &serde_json::Value)) {
+                match v {
+                    serde_json::Value::Object(m) => {
+                        for (k, x) in m {
+                            f(k, x);
+                            walk(x, f);
+                        }
+                    }
+                    serde_json::Value::Array(a) => a.iter().for_each(|x| walk(x, f)),
+                    _ => {}
+                }
+            }
+            let mut handler_fault_planned = sc.fail_at.is_some() || case.mode == "stream_fault";
+            if let Ok(v) = serde_json::to_value(sc) {
+                walk(&v, &mut |k, x| {
+                    if (k == "fail_stream" && x.as_bool() == Some(true)) || (k == "utf8_chunks" && x.as_u64().unwrap_or(0) >= 200) {
+                        handler_fault_planned = true;
+                    }
+                });
+            }
+            let wrong = match &kind {
+                ErrKind::Handler(_) => !handler_fault_planned,
+                ErrKind::Mem => sc.max_mem.is_none(),
+                ErrKind::Ambiguity => false,
+            };
+            if wrong {
+                return Ok(Err(Fail::new(
+                    "C11.error_kind",
+                    format!("call #{call_idx} returned {kind:?}, but the only fault injected into this run is {} (max_mem={:?}, fail_at={:?})", if sc.max_mem.is_some() { "the memory limit" } else { "none of that kind" }, sc.max_mem, sc.fail_at),
+                )));
+            }
+        }
         let flag_on = match kind {
             ErrKind::Mem => sc.graceful_mem,
             ErrKind::Handler(_) => sc.graceful_handler,
